@@ -797,11 +797,11 @@ func TestDriver(t *testing.T) {
 		if b.Expect != "" {
 			switch {
 			case res.reproduced[b.Expect]:
-				witness[b.Expect] = "reproduced"
+				witness[b.ID] = "reproduced"
 			case res.drift != "":
-				witness[b.Expect] = "not followed: " + res.drift
+				witness[b.ID] = "not followed: " + res.drift
 			default:
-				witness[b.Expect] = "followed, but the property holds on the real code"
+				witness[b.ID] = "followed, but the property holds on the real code"
 			}
 		}
 		if res.drift != "" {
